@@ -147,6 +147,24 @@ func checkC17(c *Ctx) {
 				"IgnoreFileErr": strs(a.Err), "IgnoreFileOrFloder": strs(a.Ana), "IgnoreFileErrTypes": ft}, "", " ")
 			pc.Files["luahelper.json"] = string(jc)
 		}
+		// after the configuration is in force the editor opens every file, and the watcher reports every file as changed
+		// and (seeded, one file) saved: the gate that file events pass is the same rule set, so nothing may (re)appear
+		var names []string
+		for k := range files {
+			if strings.HasSuffix(k, ".lua") {
+				names = append(names, k)
+			}
+		}
+		sort.Strings(names)
+		var evs []string
+		for _, k := range names {
+			pc.Steps = append(pc.Steps, openStep(k, files[k]))
+			evs = append(evs, fmt.Sprintf(`{"uri":"file://$ROOT/%s","type":2}`, k))
+		}
+		pc.Steps = append(pc.Steps, proto.Step{M: "workspace/didChangeWatchedFiles", N: true, P: json.RawMessage(`{"changes":[` + strings.Join(evs, ",") + `]}`)})
+		sv := names[int(hash64(string(raw), c.Seed)%uint64(len(names)))]
+		pc.Steps = append(pc.Steps, proto.Step{M: "textDocument/didSave", N: true, P: json.RawMessage(fmt.Sprintf(`{"textDocument":{"uri":"file://$ROOT/%s"},"text":%s}`, sv, jstr(files[sv])))},
+			proto.Step{M: "textDocument/hover", P: posParams("main.lua", 0, 7)})
 		r := &cfgRun{abs: a, raw: raw}
 		return &Job{PC: pc, Data: r}
 	}
